@@ -31,9 +31,36 @@ def gen_cases(ck):
                     bad = bytearray(stored)
                     bad[i] ^= 1 << r.randrange(8)
                     cases.append(Case("cmph %d %d %s %s %s" % (HBUF, hm, k.hex(), wv.hexs(m), bytes(bad).hex()), "cmph", "compare/byte-%s-differs" % ("last" if i == len(t) - 1 else "first" if i == 0 else "mid")))
+            # differences whose byte-wise xor values sum to 0 mod 256, or cancel under xor
+            for pat in ([0x80, 0x80], [0x40, 0x40, 0x40, 0x40], [0xFF, 0x01], [0x55, 0x55]):
+                bad = bytearray(stored)
+                pos = r.sample(range(len(t)), len(pat))
+                for q, v in zip(pos, pat):
+                    bad[q] ^= v
+                cases.append(Case("cmph %d %d %s %s %s" % (HBUF, hm, k.hex(), wv.hexs(m), bytes(bad).hex()), "cmph", "compare/multi-byte-difference"))
             junk = bytearray(stored)
             junk[len(t)] ^= 0xFF            # bytes after the tag do not matter
             cases.append(Case("cmph %d %d %s %s %s" % (HBUF, hm, k.hex(), wv.hexs(m), bytes(junk).hex()), "cmph", "compare/junk-after-tag"))
+    # computed tag containing a 0x00 byte: a stored tag equal up to and including it, different afterwards
+    found = 0
+    tries = 0
+    while found < (12 if big else 5) and tries < 4000:
+        tries += 1
+        hm = tries % 3
+        k, m = rnd_key(r), rnd_bytes(r, r.randrange(0, 100))
+        t = pyhmac.new(k, m, PY[hm]).digest()
+        if 0 in t[:-1]:
+            j = t.index(0)
+            bad = bytearray(t + bytes(64 - len(t)))
+            for q in range(j + 1, len(t)):
+                bad[q] ^= 0xA5
+            cases.append(Case("cmph %d %d %s %s %s" % (HBUF, hm, k.hex(), wv.hexs(m), bytes(bad).hex()), "cmph", "compare/equal-up-to-a-zero-byte"))
+            found += 1
+    # keys with boundary bytes
+    for hm in (0, 1, 2):
+        for k in (bytes(16), b"\x00" + rnd_bytes(r, 15), rnd_bytes(r, 5) + b"\x00" + rnd_bytes(r, 10), rnd_bytes(r, 15) + b"\x00", b"\xff" * 16):
+            m = rnd_bytes(r, r.randrange(0, 80))
+            cases.append(Case("hmac %d %d %s %s" % (HBUF, hm, k.hex(), wv.hexs(m)), "hmac", "tag/key-with-zero-or-ff-bytes"))
     return cases
 
 
